@@ -181,9 +181,9 @@ static void handler(const Line& t, Out& o) {
     Reg& g = get(t.at(1));
     if (g.kind == 1) g.s1->update(std::numeric_limits<double>::quiet_NaN());
     o.R(1); break; }
-  case 4: { // merge r r2 mode
+  case 4: case 23: { // merge r r2 mode (23: lvalue merge, the model keeps no ghost log: deep-level histories)
     if (t.at(1) == t.at(2)) throw std::invalid_argument("self merge not exercised");
-    Reg& a = get(t.at(1)); Reg& b = get(t.at(2)); bool rv = t.at(3) == 1;
+    Reg& a = get(t.at(1)); Reg& b = get(t.at(2)); bool rv = op == 4 && t.at(3) == 1;
     if (a.kind != b.kind) throw std::invalid_argument("kinds differ");
     if (a.kind == 0) merge_op<K0>(a, b, rv); else if (a.kind == 1) merge_op<K1>(a, b, rv); else merge_op<K2>(a, b, rv);
     if (rv) regs.erase((long)t.at(2));
